@@ -5,7 +5,7 @@ SPEC = {
     "extract": ["c37"],
     "harness": "c37",
     "driver": "Driver/C37.lean",
-    "needs_plz": False,
+    "needs_plz": True,
     "level": "proof",
     "level_text": (
         "Proved on the model (Model/Cmd.lean, instantiated with the regenerated sequence table and quote facts): "
@@ -30,6 +30,8 @@ SPEC = {
         "direct oracle: real ReplaceSequences + real IterSources/IterRuntimeFiles/PrepareSource populate a build or test "
         "directory; a real bash parses the expansion there; words must equal the named existing paths, or the sequence "
         "must be rejected",
+        "end to end: the real plz binary builds genrules `cat $(location NAME) > $OUT` (and the multi-output / non-dependency "
+        "/ non-source misuses) in scratch repositories; build success and produced content are judged (oracle only)",
         "modelled, not verified: Model/Cmd.lean transcribes command_replacements.go, label parsing, filepath.Clean/Join, "
         "the first level of IterSources; Go strings as lists of characters (valid UTF-8)",
         "idealisations: bash is represented by a POSIX-subset splitter (validated against bash only on texts without "
